@@ -139,6 +139,9 @@ func c13CallCheck(cs c13Case) string {
 		}
 		return ""
 	}
+	if cs.Kind == "tables" {
+		return c13TablesPrivate()
+	}
 	if cs.Kind == "repeat" && len(cs.Calls) == 1 {
 		env := c13calls.NewEnv()
 		a := env.Do(cs.Calls[0])
@@ -419,8 +422,8 @@ func init() {
 		ID:       "C13",
 		Title:    "calls are pure: no argument mutation, no output, no history, safe under concurrency",
 		Explorer: "E2 explicit-state history search (fresh process per history, deep state dump) + E3 controlled-scheduler DFS over interleavings with iterated preemption bound on an instrumented overlay + universal argument/output monitors (+ free-running -race pass as sampling complement)",
-		Rule: "monitors: every call of the C04 list space and the C07 list space, argument slices with sentinel-filled spare capacity compared afterwards, fd 1/2 size compared after every call; " +
-			"E2: alphabet of 43 colliding calls; every history of length <= 2 (thorough 3) is replayed in a fresh process; state = canonical deep dump of all package-level variables of the module's packages (generated from the working tree), transition = one call; invariant: each call returns what it returns as the first call of a fresh process, arguments untouched, nothing printed; singletons run twice (determinism); " +
+		Rule: "monitors: every call of the C04 list space and the C07 list space, argument slices with sentinel-filled spare capacity compared afterwards, fd 1/2 size compared after every call; the same slice reused with new contents; every element of the tables returned by the four getters overwritten at every depth (later tables and answers unchanged); " +
+			"E2: alphabet of 45 colliding calls; every history of length <= 2 (thorough 3) is replayed in a fresh process; state = canonical deep dump of all package-level variables of the module's packages (generated from the working tree), transition = one call; invariant: each call returns what it returns as the first call of a fresh process, arguments untouched, nothing printed; singletons run twice (determinism); " +
 			"E3: scenarios = every unordered pair of 12 colliding calls as 2 threads x 1 call, 2 threads x 2 calls in opposite orders, triples; scheduling points at every access to a package-level variable, every pointer-receiver method statement of a state-bearing type, every sync / sync/atomic operation, every range over a map (order = choice); DFS with preemption bound 0,1,2 (thorough 3); oracles on every complete schedule: results equal the sequential ones, no unordered conflicting accesses (vector clocks), no deadlock, arguments untouched; " +
 			"non-trivial = E2 histories of length >= 2 and E3 executions beyond the default schedule",
 		Assumptions: []string{
@@ -630,6 +633,16 @@ func c13Run(c *Ctx) {
 	}
 	c.Bound("monitors", map[string]any{"c04_core_lists_max_len": K, "c07_entry_lists_max_len": K, "output_monitor_token_sequences_max_len": 3, "reused_slice_lists_max_len": 2})
 
+	// the tables handed out by the four getters are private copies (written at every depth, then restored)
+	if c.Mine(2) {
+		c.Inc("states")
+		c.Add("transitions", 8)
+		c.Inc("evaluations")
+		c.Outcome("tables-private")
+		if msg := c13TablesPrivate(); msg != "" {
+			c.Report(Violation{Kind: "c13.call", Class: "shared-table", Key: "tables-private", Size: 1, Msg: msg, Case: mustJSON(c13Case{Kind: "tables"})})
+		}
+	}
 	// repeated identical calls in one process must give identical answers (also for long lists)
 	if c.Mine(1) {
 		env := c13calls.NewEnv()
